@@ -187,12 +187,12 @@ Fixpoint mk_iter (i : IT) (ctx : env) : itst :=
   | IMap _ j => mk_iter j ctx
   | IMapWith _ j => mk_iter j ctx
   | IOrNot _ => SFlag false
-  | IRepCfg _ _ _ => SCfg 0 (val_count (cval ctx)) (Some (val_count (cval ctx)))
+  | IRepCfg _ lo hi ck => SCfg 0 (cfg_lo ck lo (val_count (cval ctx))) (cfg_hi ck hi (val_count (cval ctx)))
   end.
 
 Fixpoint noncons_ok (i : IT) : bool :=
   match i with
-  | IRep _ _ _ | ISep _ _ _ _ _ _ | IRepCfg _ _ _ => false
+  | IRep _ _ _ | ISep _ _ _ _ _ _ | IRepCfg _ _ _ _ => false
   | IEnum j | IMap _ j | IMapWith _ j => noncons_ok j
   | IOrNot _ => true
   end.
@@ -254,7 +254,7 @@ Fixpoint it_next (m : mode) (i : IT) (ctx : env) (its : itst) (s : st) : ires * 
       match rep_next m a lo hi ctx c s with (r, c', s') => (r, SCount c', s') end
   | ISep a sep lo hi lead trail, SCount c =>
       match sep_next m a sep lo hi lead trail ctx c s with (r, c', s') => (r, SCount c', s') end
-  | IRepCfg a lo hi, SCfg c clo chi =>
+  | IRepCfg a lo hi _, SCfg c clo chi =>
       (* next_cfg: cfg.at_most.unwrap_or(self.at_most), cfg.at_least.unwrap_or(self.at_least);
          the configuring closure always sets both *)
       match rep_next m a clo chi ctx c s with (r, c', s') => (r, SCfg c' clo chi, s') end
